@@ -223,6 +223,32 @@ def random_scripts(seed, n, length, nslots, weights=None, tstep=(1, 24)):
     return [driver.gen_script(rng, nslots, length, weights, tstep=tstep) for _ in range(n)]
 
 
+def burst_scripts(seed, n, nslots=1):
+    """Bursts of 1..40 sends queued back to back, collected by polling, by an upgraded
+    websocket or by a websocket-only session."""
+    rng = random.Random(seed)
+    out = []
+    for i in range(n):
+        mode = ('poll', 'upgrade', 'ws', 'pollpending')[i % 4]
+        k = rng.choice([1, 2, 15, 16, 17, 18, 19, 25, 33, 40])
+        sc = [{'op': 'openws'}] if mode == 'ws' else [{'op': 'open'}]
+        if mode == 'upgrade':
+            sc += [{'op': 'upgrade', 's': 1}, {'op': 'wsframe', 's': 1, 'f': 'PINGprobe'},
+                   {'op': 'poll', 's': 1}]
+            sc += [{'op': 'send', 's': 1}] * rng.randint(0, 3)
+            sc += [{'op': 'wsframe', 's': 1, 'f': 'UPGRADE'}]
+        if mode == 'pollpending':
+            sc += [{'op': 'poll', 's': 1}]
+        sc += [{'op': 'send', 's': 1}] * k
+        if mode in ('poll', 'pollpending'):
+            sc += [{'op': 'poll', 's': 1}, {'op': 'poll', 's': 1}]
+        sc += [{'op': 'tick', 't': 2}, {'op': 'send', 's': 1}]
+        if mode in ('poll', 'pollpending'):
+            sc += [{'op': 'poll', 's': 1}]
+        out.append(sc)
+    return out
+
+
 def replay_server_trace(pid, path):
     """--replay for violations of kind 'server-trace': re-run the script, re-validate."""
     with open(path) as f:
